@@ -14,7 +14,7 @@ RULE = ("case = (protocol version 2|3; 48-bit device id; for V3 a 64-byte token 
         "applied = full settable state; initial = independent device state incl. display, sensors, filter flag; per-exchange "
         "delivery script: cut set and inter-chunk gap (V3: any cut set incl. byte-by-byte and coalescing; V2: one segment per "
         "packet) and 0..3 unsolicited frames before/after the solicited reply from {duplicate of the reply, spontaneous 0xC0 "
-        "report of the old/current state, 0xA0/0xA1 reports, type-5 0xB5 notification}; optionally the device pushes such frames on the idle connection before the apply). (a) client A refreshes, sets every "
+        "report of the old/current state, 0xA0/0xA1 reports, type-5 0xB5 notification}; optionally the device pushes such frames - one, or a backlog of up to 100 - on the idle connection before the apply, and the client may then stay idle for up to 30 h). (a) client A refreshes, sets every "
         "attribute, apply(): the model device's state decoded with its own vendor-layout decoder must equal applied field by "
         "field, non-settable fields unchanged, no frame rejected, every packet carries the configured device id, and A's "
         "attributes equal applied. (b) a fresh client B (new object, connection, handshake) refresh(): B's attributes equal the "
@@ -85,8 +85,12 @@ def _check_once(case: dict):
             for tok in case["idle_push"]:
                 fr = m.state_frame(0x03) if tok == "STATE" else (rc.frame_build(0x05, bytes([0xA0]) + bytes(range(1, 22)), proto=3) if tok == "A0"
                                                                  else rc.frame_build(0x05, bytes([0xB5, 0x01, 0x12, 0x02, 0x01, 0x01]), proto=3))
-                conn_a.tr.feed_later(0.01, dev.wrap(conn_a, fr))
+                for _ in range(case.get("push_repeat", 1)):
+                    conn_a.tr.feed_later(0.01, dev.wrap(conn_a, fr))
             await asyncio.sleep(0.1)
+            if case.get("idle_hours"):
+                # ... and client A stays idle for a long time (past the 12 h session lifetime on V3) with those reports unread
+                await asyncio.sleep(case["idle_hours"] * 3600.0)
         acutil.set_attrs(a, applied)
         await a.apply()
         res["a_attrs"] = acutil.read_attrs(a)
@@ -219,8 +223,32 @@ def cases():
         "version": st.sampled_from([2, 3, 3]), "id": gens.device_ids(48), "token": hexb(gens.tokens64()), "key": hexb(gens.keys32()),
         "token_form": st.sampled_from(["bytes", "hex"]), "key_form": st.sampled_from(["bytes", "hex"]),
         "applied": gens.settable_states(), "initial": gens.device_states(), "script": st.lists(exch, min_size=0, max_size=4)},
-        optional={"idle_push": st.lists(st.sampled_from(["STATE", "STATE", "A0", "B5N"]), min_size=1, max_size=3), "again": st.sampled_from([None, "client", "remote"])})
+        optional={"idle_push": st.lists(st.sampled_from(["STATE", "STATE", "A0", "B5N"]), min_size=1, max_size=3), "again": st.sampled_from([None, "client", "remote"]),
+                  "idle_hours": st.sampled_from([0, 0, 1, 13, 30]), "push_repeat": st.sampled_from([1, 1, 1, 40, 100])})
 
 
 def run(ctx) -> None:
+    # deterministic: reports pushed on the idle connection (one, or a backlog of 100), then a short or a long idle period
+    import hashlib
+    k = 0
+    for version in (2, 3):
+        for push in (["STATE"], ["A0", "STATE"], ["B5N"]):
+            for repeat in (1, 100):
+                for hours in (0, 13):
+                    k += 1
+                    if ctx.mine(k):
+                        d = hashlib.sha256(b"c01 det %d" % k).digest()
+                        case = {"version": version, "id": int.from_bytes(d[:6], "big"), "token": hashlib.sha512(d).hexdigest(), "key": hashlib.sha256(d + b"k").hexdigest(),
+                                "token_form": "bytes", "key_form": "hex",
+                                "applied": {"power": True, "mode": 1 + k % 5, "target": 17.0 + (k % 20) * 0.5, "fan": [40, 60, 80, 102][k % 4], "swing": [0, 0xC, 0x3, 0xF][k % 4], "eco": bool(k & 1),
+                                            "turbo": False, "sleep": bool(k & 2), "fahrenheit": False, "freeze": False, "follow_me": False, "purifier": bool(k & 4), "humidity": 40 + k % 30,
+                                            "aux": k % 3, "beep": bool(k & 1)},
+                                "initial": dict(gens.DEVICE_STATE_EXAMPLE) if hasattr(gens, "DEVICE_STATE_EXAMPLE") else None, "script": [],
+                                "idle_push": push, "push_repeat": repeat, "idle_hours": hours}
+                        if case["initial"] is None:
+                            case["initial"] = {"power": False, "mode": 2, "target": 24.0, "fan": 80, "swing": 0, "eco": False, "turbo": 0, "sleep": False, "fahrenheit": False,
+                                               "freeze": False, "follow_me": False, "purifier": False, "humidity": 45, "aux": 0, "display_on": True, "indoor_raw": 92,
+                                               "outdoor_raw": 104, "indoor_tenths": 3, "outdoor_tenths": 0, "filter_alert": False}
+                        ctx.check(case, lambda c: _run_one(ctx, c))
+    ctx.sweep("reports pushed on the idle connection x backlog size x idle period x version", k, True)
     ctx.hyp("end-to-end", cases(), lambda c: _run_one(ctx, c), ctx.n(4000, 160000))
